@@ -46,7 +46,16 @@ static int stub_yield(void);
 #define URECV_INV 1
 #define SPRECV_ASSIGNS channel->ready_signal
 #define SPRECV_INV 1
+/* create's allocator: records the request; hands back the static store declared below (create touches only the header) */
+static size_t create_req; static int create_calls; static void* create_obj;
+static void* stub_calloc(size_t n, size_t sz) { create_calls++; create_req = n * sz; return verif_bool() ? 0 : create_obj; }
+static int create_frees;
+static void stub_free(void* q) { if (q == create_obj) create_frees++; }
+#define calloc stub_calloc
+#define free stub_free
 #include "fiber_channel.h" /* woven */
+#undef calloc
+#undef free
 #undef fiber_signal_raise
 #undef fiber_signal_wait
 #undef fiber_yield
@@ -153,4 +162,18 @@ void h_try_receive(void) {
   if (r) VASSERT(r == 1 && !G.bad && G.cleared && G.advanced && out != 0 && out == G.taken, "H: C11 try_receive success = the message of position low, slot emptied, position released");
   else VASSERT(!G.bad && !G.cleared && !G.advanced && G.waits == 0 && G.yields == 0, "H: C11 try_receive failure changes nothing and does not block");
   VCANARY("try_receive can return");
+}
+/* create: for every capacity the interface admits (2^1 .. 2^31) the allocation really holds that many slots (the send/receive proofs take
+ * "buffer has `size` cells" as given), the indices start equal, the ready signal is the caller's */
+void h_create(void) {
+  uint32_t k = (uint32_t)verif_u64(); VASSUME(k >= 1 && k < 32);
+  create_calls = 0; create_req = 0; create_frees = 0; create_obj = &CHS;
+  fiber_bounded_channel_t* r = fiber_bounded_channel_create(k, &SIG);
+  VASSERT(create_calls == 1 && create_req >= sizeof(fiber_bounded_channel_t) + ((size_t)1 << k) * sizeof(void*),
+          "H: C11 create: the allocation holds the header and all 2^k slots, for every k the interface admits (1..31) - otherwise a send overwrites foreign memory");
+  if (r) VASSERT(r == CH && r->size == ((uint32_t)1 << k) && r->power_of_2_mod == r->size - 1 && CUR_H == CUR_L && r->ready_signal == &SIG &&
+                 r->waiters.head != 0 && r->waiters.head == r->waiters.tail,
+                 "H: C11 create: capacity 2^k, mask 2^k - 1, empty, the caller's ready signal");
+  else VASSERT(create_frees <= 1, "H: C11 a failed create frees its allocation at most once");
+  VCANARY("create can return");
 }
